@@ -66,7 +66,16 @@ def build_app(case, rec):
     from ombott.router.radidict import RadiDictKeyError, RadiDictError
     from ombott.router.errors import RouteMethodError, RouteBuildError
     from ombott.router.radirouter import HookTypes
-    app = Ombott()
+    dm = case.get('dm')
+    if dm:
+        cfg = dict(domain_map=lambda host: dict(dm['table']).get(host), app_name_header=dm['header'])
+        if dm.get('via') == 'setup':
+            app = Ombott()
+            app.setup(cfg)
+        else:
+            app = Ombott(cfg)
+    else:
+        app = Ombott()
     state = {'rhooks': 0}
 
     def mk_before_after(tag, i, h):
@@ -118,7 +127,9 @@ def build_app(case, rec):
             if c['op'] == 'add':
                 app.add_route(c['rule'], c['methods'], handler(c['h']), c.get('name'), overwrite=bool(c.get('overwrite')))
             elif c['op'] == 'add_hook':
-                if c.get('partial'):
+                if c.get('partial') and c.get('via') == 'error':
+                    app.error(404, rule=c['rule'])(hook(c['h']))      # the public way to install a PARTIAL hook
+                elif c.get('partial'):
                     app.router.add_hook(c['rule'], hook(c['h']), hook_type=HookTypes.PARTIAL)
                 else:
                     app.on_route(c['rule'], hook(c['h']))
@@ -158,6 +169,13 @@ def make_environ(case):
         'wsgi.input': io.BytesIO(b''), 'wsgi.errors': io.StringIO(), 'wsgi.version': (1, 0),
         'wsgi.multithread': False, 'wsgi.multiprocess': False, 'wsgi.run_once': False, 'SCRIPT_NAME': '',
     }
+    dm = case.get('dm')
+    if dm:
+        if dm.get('fwd'):
+            env['HTTP_X_FORWARDED_HOST'] = dm['host']
+            env['HTTP_HOST'] = 'other.example'
+        else:
+            env['HTTP_HOST'] = dm['host']
     if rq['json']:
         env['HTTP_ACCEPT'] = 'application/json'
     if rq['fw']:
@@ -192,12 +210,29 @@ def project(obs, case):
 # codec
 # --------------------------------------------------------------------------
 
+def app_name(case):
+    dm = case.get('dm')
+    return dict(dm['table']).get(dm['host']) if dm else None
+
+
+def effective_path(case):
+    """PATH_INFO after wsgi() prefixed the application name"""
+    n = app_name(case)
+    return case['req']['path'] if not n else '/' + n + case['req']['path']
+
+
 def url_repr(case):
     """repr(html.escape(request.url)) computed from the environ the way props_mixin does, without ombott"""
     from urllib.parse import urljoin
-    path = '/' + case['req']['path'].lstrip('/')
-    full = urljoin('/', path[1:].lstrip('/'))
-    return repr(html.escape('http://localhost' + quote(full)))
+    path = '/' + effective_path(case).lstrip('/')
+    n = app_name(case)
+    appname = '/' + n if n else '/'           # environ[config.app_name_header], default '/'
+    full = urljoin('/', path[len(appname):].lstrip('/'))
+    host = 'localhost'
+    dm = case.get('dm')
+    if dm:
+        host = dm['host']                     # X-Forwarded-Host or Host
+    return repr(html.escape('http://' + host + quote(full)))
 
 
 def enc_fspec(entry):
@@ -211,9 +246,10 @@ def encode(case):
     script = rl.encode(dict(cmds=case['cmds']))
     ctx = rl.Ctx(dict(cmds=case['cmds']))
     rq = case['req']
-    tab = rl.filter_table(ctx, rq['path'])
+    tab = rl.filter_table(ctx, effective_path(case))
     eh = list({code: (code, spec) for code, spec in case['eh']}.values())
-    return (script + c3.S(rq['path']) + c3.S(rq['verb']) + [int(rq['fw']), int(rq['json'])] + c3.S(url_repr(case))
+    n = app_name(case)
+    return (script + ([0] if n is None else [1] + c3.S(n)) + c3.S(rq['path']) + c3.S(rq['verb']) + [int(rq['fw']), int(rq['json'])] + c3.S(url_repr(case))
             + enc_list(tab, lambda row: enc_list(
                 row, lambda cell: [0] if cell is None else [1] + enc_str(cell[0]) + [cell[1]]))
             + enc_list(eh, c3.enc_eh) + enc_list(case['before'], c3.enc_hprog) + enc_list(case['after'], c3.enc_hprog)
@@ -268,7 +304,7 @@ def oracle(case, obs):
         return None
     ctx = rl.Ctx(dict(cmds=case['cmds']))
     rules = accepted_rules(case, obs, ctx)
-    sp = case['req']['path'].strip('/')
+    sp = effective_path(case).strip('/')
     hits = []
     for r in rules:
         try:
@@ -383,13 +419,28 @@ def g_case(rng):
     if '\x00' in path or any(0xD800 <= ord(ch) <= 0xDFFF for ch in path):
         path = path.replace('\x00', 'z')
     verb = spell(rng, rng.choice(rl.VERBS))
+    dm = None
+    if rng.random() < 0.15:
+        # a domain map: when the path starts with a plain ASCII segment, serve it as application "<segment>" with
+        # the rest as PATH_INFO, so that the prefixed path is the one the rules were written for
+        segs_ = path.split('/')
+        name = segs_[1] if len(segs_) > 2 and segs_[1].isascii() and segs_[1].isalnum() else 'app'
+        if name != 'app':
+            path = '/' + '/'.join(segs_[2:])
+        host = rng.choice(['a.example', 'b.example:8080'])
+        table = [[host, name]] if rng.random() < 0.8 else [['nobody.example', name]]
+        dm = dict(table=table, host=host, fwd=rng.random() < 0.4, header=rng.choice(['', 'HTTP_X_APP_NAME']),
+                  via=rng.choice(['ctor', 'setup']))
+    for c_ in cmds:
+        if c_['op'] == 'add_hook' and c_.get('partial') and rng.random() < 0.5:
+            c_['via'] = 'error'
     eh = []
     if rng.random() < 0.1:
         eh.append([rng.choice([404, 405, 500]), dict(k=rng.choice(['body', 'raise']))])
     return dict(kind='app', cmds=cmds, handlers=handlers, hooks=hooks,
                 before=[c3.g_hook(c) for _ in range(rng.choice([0, 0, 0, 1, 2]))],
                 after=[c3.g_hook(c) for _ in range(rng.choice([0, 0, 0, 1, 2]))],
-                eh=eh, req=dict(path=path, verb=verb, fw=rng.random() < 0.2, json=rng.random() < 0.25))
+                eh=eh, dm=dm, req=dict(path=path, verb=verb, fw=rng.random() < 0.2, json=rng.random() < 0.25))
 
 
 def gen(rng, n):
@@ -400,7 +451,7 @@ def gen(rng, n):
 def simple(cmds, path, verb='GET', handlers=None, hooks=None, **kw):
     hs = handlers if handlers is not None else [[c['h'], dict(k='echo')] for c in cmds if c['op'] == 'add']
     ks = hooks if hooks is not None else [[c['h'], dict(k='echo')] for c in cmds if c['op'] == 'add_hook']
-    d = dict(kind='app', cmds=cmds, handlers=hs, hooks=ks, before=[], after=[], eh=[],
+    d = dict(kind='app', cmds=cmds, handlers=hs, hooks=ks, before=[], after=[], eh=[], dm=None,
              req=dict(path=path, verb=verb, fw=False, json=False))
     d.update(kw)
     return d
@@ -432,6 +483,17 @@ def corpus():
         simple(two, '/u/é€/edit', 'PATCH'), simple([add('/p/<rest:path>', ['GET'], 1)], '/p/a/b//c'),
         simple(two, '/u/bob', before=[c3.OK_HOOK, c3.BAD_HOOK], after=[c3.OK_HOOK]),
     ]
+    # config.domain_map / app_name_header: Host and X-Forwarded-Host, mapped and unmapped, header named or ''
+    for fwd in (False, True):
+        for header in ('', 'HTTP_X_APP_NAME'):
+            for via in ('ctor', 'setup'):
+                cs.append(simple(two, '/bob', dm=dict(table=[['a.example', 'u']], host='a.example', fwd=fwd, header=header, via=via)))
+                cs.append(simple(two, '/7/edit', 'GET', dm=dict(table=[['a.example', 'u']], host='a.example', fwd=fwd,
+                                                               header=header, via=via)))
+    cs.append(simple(two, '/u/bob', dm=dict(table=[['a.example', 'u']], host='zzz.example', fwd=False, header='', via='ctor')))
+    cs.append(simple(two, '/nope', dm=dict(table=[['a.example', 'u']], host='a.example', fwd=False, header='', via='ctor'),
+                     req=dict(path='/nope', verb='GET', fw=False, json=True)))
+    cs.append(simple([add('/h/<x>/z', ['GET'], 1), dict(hk('/h', 2, True), via='error')], '/h/q/nope'))
     return cs
 
 
@@ -466,6 +528,20 @@ def shrink(case):
 
 
 PREDICATES = {}
+
+API_SURFACE = [
+    ('Ombott.add_route / route(rule, method, callback, name, overwrite)', 'covered by add commands (several verbs, lower-case, '
+     'repeated, conflicting, overwrite)'),
+    ('Ombott.remove_route / remove_route_hook', 'covered occasionally (remove / remove_hook commands); histories are C11'),
+    ('Ombott.on_route(rule, f) (SIMPLE hooks)', 'covered by add_hook commands; prefix argument checked by echo hooks'),
+    ('router.add_hook(rule, f, PARTIAL) / Ombott.error(404, rule)', 'covered by add_hook partial, via=error'),
+    ('Ombott.to_route + Request.path + Request.method', 'covered: leading-slash variants, trailing slashes, verbs in any case'),
+    ('Ombott.handler', 'covered: 404 / PARTIAL / 405 Allow / SIMPLE hooks / kwargs'),
+    ('config.domain_map / app_name_header (ctor and setup)', 'covered by dm cases: Host, X-Forwarded-Host, unmapped host, named and '
+     'empty header; model App.with_app_name, theorem App_domain_map_routes_prefixed_path'),
+    ('rule syntax / filters / rex selectors', 'rule parsing is C01p; rex selectors are outside routerC\'s model (not generated)'),
+    ('everything after routing', 'see API_SURFACE of tools/props/C03.py'),
+]
 
 MANIFEST = dict(
     text=('Sub-check of C03: coq/model/App.v composes routerC\'s router model (Router.to_route on request.path = "/" + '
